@@ -187,14 +187,14 @@ Theorem finished_run_open_empty_dag_reach : forall g cfg start tms out dropped s
 Proof. exact resumed_open_empty_dag_reach_s. Qed.
 Print Assumptions finished_run_open_empty_dag_reach.
 
-(* any-predecessor mode: END reached with no other node scheduled.  Interrupts of the graph
-   (interrupt-before / interrupt-after nodes) in every call; no task interrupts itself ([no_reruns]) *)
-Theorem finished_run_open_empty_pregel_partial : forall g cfg start tms out st,
-  g_dag g = false -> NoDup (all_keys g) -> ~ In kEND (all_keys g) -> no_reruns tms ->
+(* any-predecessor mode: END reached with no other node scheduled.  [g_eager g = false]: graph.compile
+   makes only Workflows eager, and a Workflow runs in all-predecessor mode *)
+Theorem finished_run_open_empty_pregel : forall g cfg start tms out st,
+  g_dag g = false -> g_eager g = false -> NoDup (all_keys g) -> ~ In kEND (all_keys g) ->
   run_int g cfg start tms = Ok (SDone out [] st) ->
   s_open (rs_store st) = [out].
 Proof. exact resumed_open_empty_pregel_s. Qed.
-Print Assumptions finished_run_open_empty_pregel_partial.
+Print Assumptions finished_run_open_empty_pregel.
 
 (* a suspended run holds nothing: whenever a call — the first or a resumed one — leaves through an
    interrupt exit, after one or two rounds of calculateNextTasks, the live handles are exactly the
@@ -203,7 +203,7 @@ Print Assumptions finished_run_open_empty_pregel_partial.
    second round and to the interrupts of tasks) *)
 Theorem suspended_run_holds_nothing : forall g cfg start tms ready rr st,
   NoDup (all_keys g) -> ~ In kEND (all_keys g) -> (g_dag g = true -> covered g = true) ->
-  (g_dag g = false -> no_reruns tms) ->
+  (g_dag g = false -> g_eager g = false) ->
   run_int g cfg start tms = Ok (SInt ready rr st) ->
   exists s, checkpoint_drain g ready st = Ok s /\ s_open s = [].
 Proof. exact suspended_holds_nothing_s. Qed.
@@ -216,7 +216,7 @@ Print Assumptions suspended_run_holds_nothing.
 Theorem every_stream_released_all_calls : forall g cfg start tms out dropped st s',
   NoDup (all_keys g) -> ~ In kEND (all_keys g) ->
   (g_dag g = true -> covered g = true /\ all_finished g st = true) ->
-  (g_dag g = false -> dropped = [] /\ no_reruns tms) ->
+  (g_dag g = false -> dropped = [] /\ g_eager g = false) ->
   run_int g cfg start tms = Ok (SDone out dropped st) ->
   consume out (rs_store st) = Ok s' ->
   s_open s' = [] /\ forall h, created (s_hist s') h -> released (s_hist s') h.
@@ -247,8 +247,15 @@ Example finished_run_rerun_nonvacuous :
                  s_open (rs_store st) = [out] /\ l_cp_drains (rs_log st) = 3%nat /\ l_input_closes (rs_log st) = 1%nat.
 Proof. exact ex_rerun_ok. Qed.
 
+(* any-predecessor mode: a loop node completes, is scheduled again and asks for a rerun in the same call *)
+Example finished_run_pregel_rerun_nonvacuous :
+  exists out st, run_int ex_pregel icfg0 [(0, [])] ex_pregel_rr_tms = Ok (SDone out [] st) /\
+                 s_open (rs_store st) = [out] /\ l_cp_drains (rs_log st) = 1%nat /\ l_input_closes (rs_log st) = 1%nat /\
+                 rs_resolved st = [0; 2; 3; 2; 3].
+Proof. exact ex_pregel_rerun_ok. Qed.
+
 Example suspended_run_nonvacuous :
-  exists ready st, run_int ex_dag ex_dag_cfg [(0, [])] [ Proofs.StreamResume.mkseg [ [(2, [[3; 4]])] ] [] ] = Ok (SInt ready [] st) /\
+  exists ready st, run_int ex_dag ex_dag_cfg [(0, [])] [ plain [ [(2, [[3; 4]])] ] ] = Ok (SInt ready [] st) /\
                    List.length ready = 2%nat /\ List.length (held ex_dag st) = 1%nat.
 Proof. exact ex_dag_suspended_ok. Qed.
 
